@@ -236,7 +236,7 @@ def path_is_id(b, ap, clone=False):
 
 
 def r3(R3, cfg, F):
-    b = F.body(D + 'DepsGraph::visit')
+    b = common.find_visit(F)
     if not b:
         R3.missing(cfg, 'DepsGraph::visit')
         return
@@ -284,6 +284,12 @@ def r3(R3, cfg, F):
     if okp:
         lp = common.deep_path(ts, ag[0]['rv']['ops'][0]) or []
         okp = lp[-1:] == ['list'] or 'list' in lp
+        if not okp:
+            # the sort state may be built by a constructor written in place: then the list returned must come out of the
+            # very state that is handed to visit
+            vis0 = [c for c in ts.calls() if c.callee and c.callee.best == b.path]
+            ro = ts.origins(ag[0]['rv']['ops'][0], passthrough=common.pt_deref)
+            okp = bool(vis0) and all(any(ro & ts.origins(a, passthrough=common.pt_deref) for a in v.args) for v in vis0)
         # a reversal in the producer must act on that list, once, after the visits
         vis = [c for c in ts.calls() if c.callee and c.callee.best == b.path]
         for r in revp:
